@@ -1,8 +1,14 @@
 (* C14 -- substituting parameters commutes with evaluation.
    Property theorems only; proofs are in Param/ParamLemmas.v, the model of
    DisCoPy's subs / lambdify / free_symbols on parametrised boxes, diagrams,
-   sums and tensors is Param/Param.v (bug-compatible), expressions are the
-   canonical polynomials over Q of Param/Expr.v.
+   sums and tensors is Param/Param.v, expressions are the canonical
+   polynomials over Q of Param/Expr.v.  The model takes a record of repair
+   switches `fx : fixes`: `pinned` (all off) is the pinned code, bug for bug;
+   `repaired` (all on) is the code with the proposed patches for F11b, c, d,
+   h, i, j.  Positive theorems hold for every fx; `_refuted` theorems are the
+   finding witnesses on `pinned` (or for every fx when no switch repairs the
+   finding: F11a, e, f, g, k); `_repaired` theorems are what the switches buy,
+   `_fixed` theorems replay the witnesses with the switches on.
 
    "Evaluation" is abstracted by grounding: `ground rho d` is the diagram with
    every parameter replaced by its value under the environment rho, which is
@@ -10,31 +16,31 @@
    parameters; `ground_nf` also forgets is_dagger / is_mixed.  The main
    statement: for every well-formed diagram, d.subs(args) grounded under rho
    is d grounded under rho updated sequentially by args (sympy's semantics of
-   subs with a list), provided no box triggers the flag findings F11b / F11c;
-   without that proviso it holds up to the flags, and is refuted with them.
-   Around it: subs and lambdify preserve dom / cod / offsets / box shapes,
-   free_symbols is exact and sound, substituting closed values removes the
-   symbols, lambdify agrees with subs when both succeed, and the `_refuted`
-   theorems are the witnesses of findings F11a-k. *)
+   subs with a list), provided no box triggers the flag findings F11b / F11c
+   (never, once repaired); without that proviso it holds up to the flags, and
+   is refuted with them on the pinned code.  Around it: subs and lambdify
+   preserve dom / cod / offsets / box shapes, free_symbols is exact and sound,
+   substituting closed values removes the symbols, lambdify agrees with subs
+   when both succeed. *)
 From Coq Require Import List ZArith Bool Lia QArith Qcanon.
 Import ListNotations.
 Require Import DV.Common.Base DV.Param.Expr DV.Param.ExprLemmas DV.Param.Param DV.Param.ParamLemmas.
 Open Scope Z_scope.
 
-(* 1. box.subs / box.lambdify keep kind, name, dom, cod of the box *)
-Theorem box_subs_shape : forall cls f b b', box_subs cls f b = XOk b' -> same_shape b b'.
+(* 1. box.subs / box.lambdify keep kind, name, dom, cod of the box (every repair switch setting fx) *)
+Theorem box_subs_shape : forall fx cls f b b', box_subs fx cls f b = XOk b' -> same_shape b b'.
 Proof. exact box_subs_shape_l. Qed.
 Print Assumptions box_subs_shape.
 
-Theorem box_lambdify_shape : forall cls syms vals b b',
-  box_lambdify cls syms vals b = XOk b' -> same_shape b b'.
+Theorem box_lambdify_shape : forall fx cls syms vals b b',
+  box_lambdify fx cls syms vals b = XOk b' -> same_shape b b'.
 Proof. exact box_lambdify_shape_l. Qed.
 Print Assumptions box_lambdify_shape.
 
 (* 2. outside the F11b / F11c triggers box.subs keeps is_dagger and is_mixed *)
-Theorem box_subs_flags : forall cls f b b',
-  box_wf b = true -> f11b_box cls (form_vars f) b = false -> f11c_box b = false ->
-  box_subs cls f b = XOk b' -> same_flags b b'.
+Theorem box_subs_flags : forall fx cls f b b',
+  box_wf b = true -> f11b_box fx cls (form_vars f) b = false -> f11c_box fx b = false ->
+  box_subs fx cls f b = XOk b' -> same_flags b b'.
 Proof. exact box_subs_flags_l. Qed.
 Print Assumptions box_subs_flags.
 
@@ -58,55 +64,55 @@ Proof. exact dmap_total_l. Qed.
 Print Assumptions dmap_total.
 
 (* 4. Diagram.subs / lambdify keep dom, cod, offsets and the shape of every box *)
-Theorem subs_preserves_dom_cod_kinds : forall cls f d d',
-  wf d = true -> dsubs cls f d = XOk d' ->
+Theorem subs_preserves_dom_cod_kinds : forall fx cls f d d',
+  wf d = true -> dsubs fx cls f d = XOk d' ->
   ddom d' = ddom d /\ dcod d' = dcod d /\ doffs d' = doffs d /\
   Forall2 same_shape (dboxes d) (dboxes d') /\ wf d' = true.
 Proof. exact subs_preserves_dom_cod_kinds_l. Qed.
 Print Assumptions subs_preserves_dom_cod_kinds.
 
-Theorem lambdify_preserves_dom_cod_kinds : forall cls syms vals d d',
-  wf d = true -> dlambdify cls syms vals d = XOk d' ->
+Theorem lambdify_preserves_dom_cod_kinds : forall fx cls syms vals d d',
+  wf d = true -> dlambdify fx cls syms vals d = XOk d' ->
   ddom d' = ddom d /\ dcod d' = dcod d /\ doffs d' = doffs d /\
   Forall2 same_shape (dboxes d) (dboxes d') /\ wf d' = true.
 Proof. exact lambdify_preserves_dom_cod_kinds_l. Qed.
 Print Assumptions lambdify_preserves_dom_cod_kinds.
 
 (*    flags are kept when no box triggers F11b / F11c *)
-Theorem subs_preserves_flags : forall cls f d d',
-  dwf d = true -> no_flag_trigger cls (form_vars f) d = true ->
-  dsubs cls f d = XOk d' -> Forall2 same_flags (dboxes d) (dboxes d').
+Theorem subs_preserves_flags : forall fx cls f d d',
+  dwf d = true -> no_flag_trigger fx cls (form_vars f) d = true ->
+  dsubs fx cls f d = XOk d' -> Forall2 same_flags (dboxes d) (dboxes d').
 Proof. exact subs_preserves_flags_l. Qed.
 Print Assumptions subs_preserves_flags.
 
-(*    F11b: Scalar(expr, is_mixed=True).subs is pure *)
+(*    F11b (pinned): Scalar(expr, is_mixed=True).subs is pure *)
 Theorem subs_flags_refuted_mixed : exists f b b',
-  box_wf b = true /\ box_subs CCircuit f b = XOk b' /\ pmixed b = true /\ pmixed b' = false.
+  box_wf b = true /\ box_subs pinned CCircuit f b = XOk b' /\ pmixed b = true /\ pmixed b' = false.
 Proof. exact subs_flags_refuted_mixed_l. Qed.
 Print Assumptions subs_flags_refuted_mixed.
 
-(*    F11b: a pure circuit.Box with data becomes mixed *)
+(*    F11b (pinned): a pure circuit.Box with data becomes mixed *)
 Theorem subs_flags_refuted_pure : exists f b b',
-  box_wf b = true /\ box_subs CCircuit f b = XOk b' /\ pmixed b = false /\ pmixed b' = true.
+  box_wf b = true /\ box_subs pinned CCircuit f b = XOk b' /\ pmixed b = false /\ pmixed b' = true.
 Proof. exact subs_flags_refuted_pure_l. Qed.
 Print Assumptions subs_flags_refuted_pure.
 
-(*    F11c: ClassicalGate.subs drops the dagger flag *)
+(*    F11c (pinned): ClassicalGate.subs drops the dagger flag *)
 Theorem subs_flags_refuted_dagger : exists f b b',
-  box_wf b = true /\ box_subs CCircuit f b = XOk b' /\ pdag b = true /\ pdag b' = false.
+  box_wf b = true /\ box_subs pinned CCircuit f b = XOk b' /\ pdag b = true /\ pdag b' = false.
 Proof. exact subs_flags_refuted_dagger_l. Qed.
 Print Assumptions subs_flags_refuted_dagger.
 
 (* 5. subs is total except on classical gates without data (F11h) *)
-Theorem subs_total : forall cls f d,
-  wf d = true -> forallb (fun b => negb (f11h_box b)) (dboxes d) = true ->
-  exists d', dsubs cls f d = XOk d'.
+Theorem subs_total : forall fx cls f d,
+  wf d = true -> forallb (fun b => negb (f11h_box fx b)) (dboxes d) = true ->
+  exists d', dsubs fx cls f d = XOk d'.
 Proof. exact subs_total_l. Qed.
 Print Assumptions subs_total.
 
-(*    F11h: Bits(0).subs raises AttributeError whatever the arguments *)
+(*    F11h (pinned): Bits(0).subs raises AttributeError whatever the arguments *)
 Theorem subs_refuted_none_data : exists d,
-  dwf d = true /\ forall f, dsubs CCircuit f d = XErr XAttribute.
+  dwf d = true /\ forall f, dsubs pinned CCircuit f d = XErr XAttribute.
 Proof. exact subs_refuted_none_data_l. Qed.
 Print Assumptions subs_refuted_none_data.
 
@@ -121,129 +127,195 @@ Theorem free_symbols_sound : forall d rho rho',
 Proof. exact free_symbols_sound_l. Qed.
 Print Assumptions free_symbols_sound.
 
-(*    F11i: a Sum has no free symbols whatever its terms *)
+(*    F11i (pinned): a Sum has no free symbols whatever its terms *)
 Theorem sum_free_refuted : exists s,
-  sum_ok s = true /\ sum_free_expected s <> [] /\ sum_free s = [].
+  sum_ok s = true /\ sum_free_expected s <> [] /\ sum_free pinned s = [].
 Proof. exact sum_free_refuted_l. Qed.
 Print Assumptions sum_free_refuted.
 
 (* 7. substituting closed values removes the substituted symbols and adds none *)
-Theorem subs_removes_symbols : forall cls f d d',
-  wf d = true -> closing (form_sigma f) -> dsubs cls f d = XOk d' ->
+Theorem subs_removes_symbols : forall fx cls f d d',
+  wf d = true -> closing (form_sigma f) -> dsubs fx cls f d = XOk d' ->
   forall y, In y (dfree d') -> In y (dfree d) /\ ~ In y (form_vars f).
 Proof. exact subs_removes_symbols_l. Qed.
 Print Assumptions subs_removes_symbols.
 
-Theorem subs_all_closed : forall cls f d d',
+Theorem subs_all_closed : forall fx cls f d d',
   wf d = true -> closing (form_sigma f) ->
   (forall y, In y (dfree d) -> In y (form_vars f)) ->
-  dsubs cls f d = XOk d' -> dfree d' = [].
+  dsubs fx cls f d = XOk d' -> dfree d' = [].
 Proof. exact subs_all_closed_l. Qed.
 Print Assumptions subs_all_closed.
 
 (* 8. C14 proper: evaluating after subs = evaluating under the updated environment
    (sequential semantics of sympy subs: env_seq), up to the two flags ... *)
-Theorem subs_eval_commute : forall cls f d d' rho,
-  dwf d = true -> dsubs cls f d = XOk d' ->
+Theorem subs_eval_commute : forall fx cls f d d' rho,
+  dwf d = true -> dsubs fx cls f d = XOk d' ->
   ground_nf rho d' = ground_nf (env_seq rho (polys_of (form_sigma f))) d.
 Proof. exact subs_eval_commute_l. Qed.
 Print Assumptions subs_eval_commute.
 
 (*    ... flags included when no box triggers F11b / F11c ... *)
-Theorem subs_eval_commute_flags : forall cls f d d' rho,
-  dwf d = true -> no_flag_trigger cls (form_vars f) d = true -> dsubs cls f d = XOk d' ->
+Theorem subs_eval_commute_flags : forall fx cls f d d' rho,
+  dwf d = true -> no_flag_trigger fx cls (form_vars f) d = true -> dsubs fx cls f d = XOk d' ->
   ground rho d' = ground (env_seq rho (polys_of (form_sigma f))) d.
 Proof. exact subs_eval_commute_flags_l. Qed.
 Print Assumptions subs_eval_commute_flags.
 
 (*    ... hence for ANY evaluation that sees parameters only through their values *)
-Theorem subs_eval_commute_abstract : forall (M : Type) (ev : gdiagram -> M) cls f d d' rho,
-  dwf d = true -> no_flag_trigger cls (form_vars f) d = true -> dsubs cls f d = XOk d' ->
+Theorem subs_eval_commute_abstract : forall fx (M : Type) (ev : gdiagram -> M) cls f d d' rho,
+  dwf d = true -> no_flag_trigger fx cls (form_vars f) d = true -> dsubs fx cls f d = XOk d' ->
   ev (ground rho d') = ev (ground (env_seq rho (polys_of (form_sigma f))) d).
 Proof. exact subs_eval_commute_abstract_l. Qed.
 Print Assumptions subs_eval_commute_abstract.
 
-(*    F11b: an evaluation that looks at is_mixed tells subs-then-eval from eval *)
+(*    F11b (pinned): an evaluation that looks at is_mixed tells subs-then-eval from eval *)
 Theorem subs_eval_commute_refuted : exists (ev : gdiagram -> bool) f d d' rho,
-  dwf d = true /\ dsubs CCircuit f d = XOk d' /\
+  dwf d = true /\ dsubs pinned CCircuit f d = XOk d' /\
   ev (ground rho d') <> ev (ground (env_seq rho (polys_of (form_sigma f))) d).
 Proof. exact subs_eval_commute_refuted_l. Qed.
 Print Assumptions subs_eval_commute_refuted.
 
-(* 9. lambdify(*syms)(*vals) and subs(zip(syms, vals)) ground to the same diagram when both succeed (closed values) *)
-Theorem lambdify_eq_subs : forall cls syms vals d d1 d2 rho,
+(* 9. lambdify of syms applied to vals, and subs of zip(syms, vals), ground to the same diagram when both succeed (closed values) *)
+Theorem lambdify_eq_subs : forall fx cls syms vals d d1 d2 rho,
   dwf d = true -> length syms = length vals ->
   Forall (fun v => poly_vars (epoly v) = []) vals ->
-  dlambdify cls syms vals d = XOk d1 ->
-  dsubs cls (SList (combine syms vals)) d = XOk d2 ->
+  dlambdify fx cls syms vals d = XOk d1 ->
+  dsubs fx cls (SList (combine syms vals)) d = XOk d2 ->
   ground rho d1 = ground rho d2.
 Proof. exact lambdify_eq_subs_l. Qed.
 Print Assumptions lambdify_eq_subs.
 
-(*    F11f / F11g / F11k: lambdify refused where subs succeeds *)
-Theorem lambdify_refuted_zx : exists d syms vals d2,
-  dwf d = true /\ dlambdify CZX syms vals d = XErr XType /\
-  dsubs CZX (SList (combine syms vals)) d = XOk d2.
+(*    F11f / F11g / F11k (no repair switch: for every fx): lambdify refused where subs succeeds *)
+Theorem lambdify_refuted_zx : forall fx, exists d syms vals d2,
+  dwf d = true /\ dlambdify fx CZX syms vals d = XErr XType /\
+  dsubs fx CZX (SList (combine syms vals)) d = XOk d2.
 Proof. exact lambdify_refuted_zx_l. Qed.
 Print Assumptions lambdify_refuted_zx.
 
-Theorem lambdify_refuted_classical : exists d syms vals d2,
-  dwf d = true /\ dlambdify CCircuit syms vals d = XErr XType /\
-  dsubs CCircuit (SList (combine syms vals)) d = XOk d2.
+Theorem lambdify_refuted_classical : forall fx, exists d syms vals d2,
+  dwf d = true /\ dlambdify fx CCircuit syms vals d = XErr XType /\
+  dsubs fx CCircuit (SList (combine syms vals)) d = XOk d2.
 Proof. exact lambdify_refuted_classical_l. Qed.
 Print Assumptions lambdify_refuted_classical.
 
-Theorem lambdify_refuted_partial_list : exists d syms vals d2,
-  dwf d = true /\ dlambdify CTensor syms vals d = XErr XName /\
-  dsubs CTensor (SList (combine syms vals)) d = XOk d2.
+Theorem lambdify_refuted_partial_list : forall fx, exists d syms vals d2,
+  dwf d = true /\ dlambdify fx CTensor syms vals d = XErr XName /\
+  dsubs fx CTensor (SList (combine syms vals)) d = XOk d2.
 Proof. exact lambdify_refuted_partial_list_l. Qed.
 Print Assumptions lambdify_refuted_partial_list.
 
-(*    F11j: Sum.lambdify returns self *)
+(*    F11j (pinned): Sum.lambdify returns self *)
 Theorem sum_lambdify_refuted : exists s syms vals s',
-  sum_ok s = true /\ sum_lambdify CCircuit syms vals s = XOk s /\
-  sum_subs CCircuit (SList (combine syms vals)) s = XOk s' /\ s' <> s.
+  sum_ok s = true /\ sum_lambdify pinned CCircuit syms vals s = XOk s /\
+  sum_subs pinned CCircuit (SList (combine syms vals)) s = XOk s' /\ s' <> s.
 Proof. exact sum_lambdify_refuted_l. Qed.
 Print Assumptions sum_lambdify_refuted.
 
 (* 10. lambdify with Python numbers for all free symbols yields an evaluable closed diagram *)
-Theorem lambdify_all_evaluable : forall cls syms vals d d',
+Theorem lambdify_all_evaluable : forall fx cls syms vals d d',
   dwf d = true -> length syms = length vals ->
   Forall (fun v => esym v = false /\ poly_vars (epoly v) = []) vals ->
   (forall y, In y (dfree d) -> In y syms) ->
-  dlambdify cls syms vals d = XOk d' ->
+  dlambdify fx cls syms vals d = XOk d' ->
   dfree d' = [] /\ deval_status d' = XOk tt.
 Proof. exact lambdify_all_evaluable_l. Qed.
 Print Assumptions lambdify_all_evaluable.
 
-(*    F11a: subs with a sympy number closes Rx but numpy cannot evaluate it *)
-Theorem subs_closed_not_evaluable_refuted : exists f d d',
-  dwf d = true /\ closing (form_sigma f) /\ dsubs CCircuit f d = XOk d' /\
+(*    F11a (no repair switch: for every fx): subs with a sympy number closes Rx but numpy cannot evaluate it *)
+Theorem subs_closed_not_evaluable_refuted : forall fx, exists f d d',
+  dwf d = true /\ closing (form_sigma f) /\ dsubs fx CCircuit f d = XOk d' /\
   dfree d' = [] /\ deval_status d' = XErr XType.
 Proof. exact subs_closed_not_evaluable_refuted_l. Qed.
 Print Assumptions subs_closed_not_evaluable_refuted.
 
 (* 11. Tensor.subs is entrywise substitution when every entry is a sympy object *)
-Theorem tensor_subs_correct : forall f t,
-  forallb esym (tents t) = true -> tensor_subs f t = XOk (tensor_subs_expected f t).
+Theorem tensor_subs_correct : forall fx f t,
+  forallb esym (tents t) = true -> tensor_subs fx f t = XOk (tensor_subs_expected f t).
 Proof. exact tensor_subs_correct_l. Qed.
 Print Assumptions tensor_subs_correct.
 
-(*    F11d: a numeric entry is replaced by the variable / numpy refuses the list form *)
+(*    F11d (pinned): a numeric entry is replaced by the variable / numpy refuses the list form *)
 Theorem tensor_subs_refuted_single : exists x v t t',
-  tensor_subs (SSingle x v) t = XOk t' /\ t' <> tensor_subs_expected (SSingle x v) t.
+  tensor_subs pinned (SSingle x v) t = XOk t' /\ t' <> tensor_subs_expected (SSingle x v) t.
 Proof. exact tensor_subs_refuted_single_l. Qed.
 Print Assumptions tensor_subs_refuted_single.
 
-Theorem tensor_subs_refuted_list : exists s t, tensor_subs (SList s) t = XErr XValue.
+Theorem tensor_subs_refuted_list : exists s t, tensor_subs pinned (SList s) t = XErr XValue.
 Proof. exact tensor_subs_refuted_list_l. Qed.
 Print Assumptions tensor_subs_refuted_list.
 
-(*    F11e: CQMap.subs raises TypeError; F11g: Tensor.lambdify raises TypeError *)
-Theorem cqmap_subs_refuted : forall f t, cqmap_subs f t = XErr XType.
+(*    F11e (not repaired, every fx): CQMap.subs raises on non-empty CQ types; F11g: Tensor.lambdify raises TypeError *)
+Theorem cqmap_subs_refuted : forall fx f t, cq_nonempty t = true ->
+  exists e, cqmap_subs fx f t = XErr e.
 Proof. exact cqmap_subs_refuted_l. Qed.
 Print Assumptions cqmap_subs_refuted.
 
 Theorem tensor_lambdify_refuted : forall syms vals t, tensor_lambdify syms vals t = XErr XType.
 Proof. exact tensor_lambdify_refuted_l. Qed.
 Print Assumptions tensor_lambdify_refuted.
+
+(* 13. the repaired code (switches on): flags kept, C14 with flags and without proviso,
+   subs total, Sum.free_symbols exact, Sum.lambdify agrees with Sum.subs termwise, Tensor.subs entrywise *)
+Theorem subs_preserves_flags_repaired : forall fx cls f d d',
+  fx_b fx = true -> fx_c fx = true -> dwf d = true -> dsubs fx cls f d = XOk d' ->
+  Forall2 same_flags (dboxes d) (dboxes d').
+Proof. exact subs_preserves_flags_repaired_l. Qed.
+Print Assumptions subs_preserves_flags_repaired.
+
+Theorem subs_eval_commute_repaired : forall fx cls f d d' rho,
+  fx_b fx = true -> fx_c fx = true -> dwf d = true -> dsubs fx cls f d = XOk d' ->
+  ground rho d' = ground (env_seq rho (polys_of (form_sigma f))) d.
+Proof. exact subs_eval_commute_repaired_l. Qed.
+Print Assumptions subs_eval_commute_repaired.
+
+Theorem subs_total_repaired : forall fx cls f d,
+  fx_h fx = true -> wf d = true -> exists d', dsubs fx cls f d = XOk d'.
+Proof. exact subs_total_repaired_l. Qed.
+Print Assumptions subs_total_repaired.
+
+Theorem sum_free_repaired : forall fx s, fx_i fx = true ->
+  forall x, In x (sum_free fx s) <-> exists t, In t (sterms s) /\ In x (dfree t).
+Proof. exact sum_free_repaired_l. Qed.
+Print Assumptions sum_free_repaired.
+
+Theorem sum_lambdify_repaired : forall fx cls syms vals s s1 s2 rho,
+  fx_j fx = true -> forallb dwf (sterms s) = true -> length syms = length vals ->
+  Forall (fun v => poly_vars (epoly v) = []) vals ->
+  sum_lambdify fx cls syms vals s = XOk s1 ->
+  sum_subs fx cls (SList (combine syms vals)) s = XOk s2 ->
+  map (ground rho) (sterms s1) = map (ground rho) (sterms s2) /\ sdom s1 = sdom s2 /\ scod s1 = scod s2.
+Proof. exact sum_lambdify_repaired_l. Qed.
+Print Assumptions sum_lambdify_repaired.
+
+Theorem tensor_subs_repaired : forall fx f t,
+  fx_d fx = true -> tensor_subs fx f t = XOk (tensor_subs_expected f t).
+Proof. exact tensor_subs_repaired_l. Qed.
+Print Assumptions tensor_subs_repaired.
+
+(*    the witnesses of F11b, F11c, F11h, F11i replayed with every switch on *)
+Theorem subs_flags_fixed_mixed : exists f b b',
+  box_wf b = true /\ box_subs repaired CCircuit f b = XOk b' /\ pmixed b = true /\ pmixed b' = true.
+Proof. exact subs_flags_fixed_mixed_l. Qed.
+Print Assumptions subs_flags_fixed_mixed.
+
+Theorem subs_flags_fixed_pure : exists f b b',
+  box_wf b = true /\ box_subs repaired CCircuit f b = XOk b' /\ pmixed b = false /\ pmixed b' = false.
+Proof. exact subs_flags_fixed_pure_l. Qed.
+Print Assumptions subs_flags_fixed_pure.
+
+Theorem subs_flags_fixed_dagger : exists f b b',
+  box_wf b = true /\ box_subs repaired CCircuit f b = XOk b' /\ pdag b = true /\ pdag b' = true.
+Proof. exact subs_flags_fixed_dagger_l. Qed.
+Print Assumptions subs_flags_fixed_dagger.
+
+Theorem subs_fixed_none_data :
+  dwf wit_f11h_bits = true /\ forall f, dsubs repaired CCircuit f wit_f11h_bits = XOk wit_f11h_bits.
+Proof. exact subs_fixed_none_data_l. Qed.
+Print Assumptions subs_fixed_none_data.
+
+Theorem sum_free_fixed :
+  sum_free repaired wit_f11i_sum = sum_free_expected wit_f11i_sum /\
+  sum_free repaired wit_f11i_sum <> [].
+Proof. exact sum_free_fixed_l. Qed.
+Print Assumptions sum_free_fixed.
